@@ -302,4 +302,30 @@ theorem legal_cfg_outputs {γ : Type} (d0 d : γ) (l : List (CfgOp γ × γ)) (h
         | read => exact Or.inl (by simpa [cfgSpec] using h1)
       · exact Or.inr ⟨q, List.mem_cons_of_mem _ hq, hq'⟩
 
+/-- the operations that take only the READ lock do not change the object — which is why they may overlap: between two
+    accesses of readers inside one read phase the state is the same -/
+theorem mapSpec_reads_pure {κ ν : Type} [DecidableEq κ] (m : List (κ × ν)) (op : MapOp κ ν)
+    (h : (mapSpec (κ := κ) (ν := ν)).isWrite op = false) : (mapSpec.apply m op).1 = m := by
+  cases op <;> simp [mapSpec] at h ⊢
+
+theorem cfgSpec_reads_pure {γ : Type} (g : γ) (op : CfgOp γ) (h : (cfgSpec γ).isWrite op = false) :
+    ((cfgSpec γ).apply g op).1 = g := by
+  cases op <;> simp [cfgSpec] at h ⊢
+
+/-- an access by a reader leaves the data as it is (for any object whose read operations are pure) -/
+theorem reader_access_keeps_data {σ ι ο : Type} (S : Spec σ ι ο)
+    (hpure : ∀ d op, S.isWrite op = false → (S.apply d op).1 = d) (s s' : St σ ι ο) (st : Step S s s')
+    (hchg : s'.data ≠ s.data) : ∃ t op, s.pcs t = .locked op ∧ S.isWrite op = true := by
+  cases st with
+  | call t op _ => exact absurd rfl hchg
+  | acquireR t op _ _ _ => exact absurd rfl hchg
+  | acquireW t op _ _ _ => exact absurd rfl hchg
+  | access t op hl =>
+    refine ⟨t, op, hl, ?_⟩
+    cases hw : S.isWrite op with
+    | true => rfl
+    | false => exact absurd (hpure s.data op hw) hchg
+  | release t op out _ => exact absurd rfl hchg
+  | ret t op out _ => exact absurd rfl hchg
+
 end Lin
